@@ -38,6 +38,7 @@ func ZvC17_Sequential() {
 	for i := 0; i < n; i++ {
 		k := vrt.Choice(2)
 		fail := vrt.Bool()
+		withItem := vrt.Bool() // a failing computation may still hand back an item next to its error
 		x := vrt.Int()
 		calls := 0
 		t0 := vrt.NowNano()
@@ -47,6 +48,9 @@ func ZvC17_Sequential() {
 			it, err = m.Memoize(zvC17Keys[k], func() (*cache.Item[int], error) {
 				calls++
 				if fail {
+					if withItem {
+						return zvItem(x), zvErrC17
+					}
 					return nil, zvErrC17
 				}
 				return zvItem(x), nil
@@ -70,7 +74,7 @@ func ZvC17_Sequential() {
 		}
 		if calls == 1 {
 			if fail {
-				vrt.Assert(vrt.And(err != nil, it == nil), "C17/error-is-returned-to-the-caller")
+				vrt.Assert(err != nil, "C17/error-is-returned-to-the-caller")
 				// an error is not cached: the model keeps whatever was there (possibly expired)
 			} else {
 				vrt.Assert(vrt.And(err == nil, it.Val() == x), "C17/computed-value-is-returned")
